@@ -137,6 +137,13 @@ package bloom
 //@   ensures bf.msgFilterLoad.Flags == old(bf.msgFilterLoad.Flags)
 //@   ensures forall j :: 0 <= j && j < len(bf.msgFilterLoad.Filter) ==> (bf.msgFilterLoad.Filter[j] & old(bf.msgFilterLoad.Filter[j])) == old(bf.msgFilterLoad.Filter[j])
 //@   ensures bf.msgFilterLoad.Flags == 0 ==> forall j :: 0 <= j && j < len(bf.msgFilterLoad.Filter) ==> bf.msgFilterLoad.Filter[j] == old(bf.msgFilterLoad.Filter[j])
+//@   ensures bf.msgFilterLoad.Flags == 1 ==> $calls_addOutPoint == 1
+//@   ensures bf.msgFilterLoad.Flags == 2 ==> $calls_GetScriptClass == 1 && ($calls_addOutPoint == 1 <==> ($ret_GetScriptClass#1 == 1 || $ret_GetScriptClass#1 == 5))
+//@   ensures bf.msgFilterLoad.Flags != 1 && bf.msgFilterLoad.Flags != 2 ==> $calls_addOutPoint == 0
+//@   ensures $calls_addOutPoint <= 1
+//@   assert after GetScriptClass#1: sameobj($arg0, pkScript) && $arg0.off == pkScript.off && len($arg0) == len(pkScript)
+//@   assert after addOutPoint#1: $arg1.Index == outIdx && forall k :: 0 <= k && k < 32 ==> $arg1.Hash[k] == old(outHash[k])
+//@   assert after addOutPoint#2: $arg1.Index == outIdx && forall k :: 0 <= k && k < 32 ==> $arg1.Hash[k] == old(outHash[k])
 //@   modifies bf.msgFilterLoad.Filter[*]
 
 //@ func bloom.(*Filter).matchTxAndUpdate
@@ -145,11 +152,23 @@ package bloom
 //@   requires forall k :: 0 <= k && k < len(tx.msgTx.TxOut) ==> tx.msgTx.TxOut[k] != nil
 //@   requires forall k :: 0 <= k && k < len(tx.msgTx.TxIn) ==> tx.msgTx.TxIn[k] != nil
 //@   ensures held(bf.mtx) && bf.msgFilterLoad == old(bf.msgFilterLoad)
+//@   ensures $calls_PushedData >= len(tx.msgTx.TxOut)
+//@   ensures $ret_matches#1 ==> result
 //@   modifies bf.msgFilterLoad.Filter[*], tx.txHash
 //@   loop 1 modifies bf.msgFilterLoad.Filter[*], tx.txHash
 //@   loop 1 invariant held(bf.mtx) && bf.msgFilterLoad == old(bf.msgFilterLoad) && tx.msgTx == old(tx.msgTx) && (bf.msgFilterLoad != nil ==> len(bf.msgFilterLoad.Filter) <= 36000)
 //@   loop 1 invariant forall k :: 0 <= k && k < len(tx.msgTx.TxOut) ==> tx.msgTx.TxOut[k] != nil
 //@   loop 1 invariant forall k :: 0 <= k && k < len(tx.msgTx.TxIn) ==> tx.msgTx.TxIn[k] != nil
+//@   loop 1 invariant $calls_PushedData == $i && ($ret_matches#1 ==> matched)
+//@   loop 2 invariant $calls_PushedData == $i1 + 1
+//@   loop 3 invariant $calls_PushedData >= len(tx.msgTx.TxOut)
+//@   loop 4 invariant $calls_PushedData >= len(tx.msgTx.TxOut)
+//@   assert after matches#1: len($arg1) == 32
+//@   assert after PushedData#1: sameobj($arg0, tx.msgTx.TxOut[$i1].PkScript) && $arg0.off == tx.msgTx.TxOut[$i1].PkScript.off && len($arg0) == len(tx.msgTx.TxOut[$i1].PkScript)
+//@   assert after matches#2: sameobj($arg1, $ret0_PushedData#1[$i2]) && len($arg1) == len($ret0_PushedData#1[$i2])
+//@   assert after maybeAddOutpoint#1: $ret_matches#2 && sameobj($arg1, tx.msgTx.TxOut[$i1].PkScript) && len($arg1) == len(tx.msgTx.TxOut[$i1].PkScript) && $arg3 == u32($i1)
+//@   assert after matchesOutPoint#1: !$ret_matches#1 && sameobj($arg1, tx.msgTx.TxIn[$i3]) && $arg1.Index == tx.msgTx.TxIn[$i3].PreviousOutPoint.Index
+//@   assert after PushedData#2: sameobj($arg0, tx.msgTx.TxIn[$i3].SignatureScript) && len($arg0) == len(tx.msgTx.TxIn[$i3].SignatureScript)
 
 //@ func bloom.(*Filter).MatchTxAndUpdate
 //@   requires !held(bf.mtx) && tx != nil && tx.msgTx != nil
